@@ -1,9 +1,13 @@
-"""Shared by C07 and C09: correspondence of M-Layer with defcon.Layer and a shadow-spec oracle.
+"""Shared by C07 and C09: correspondence of M-Layer / M-Layers with defcon.Layer and a shadow-spec oracle.
 
-A case = glyph records on disk + variant (how much is read before the ops / memory-only twin)
-+ operations on the default layer.  After every op all layer-level queries are compared.
+A case = glyph records on disk (default layer `disk`, further layers `extra`) + variant (how much is read before
+the ops / memory-only twin) + operations.  An operation `["on", L, op]` addresses layer L through the Layer API;
+a bare operation goes through the Font API where there is one (font[n], font.newGlyph, font.insertGlyph,
+del font[n], font.unicodeData) and so reaches whichever layer is the default one at that moment.  After every
+op all layer-level queries of the addressed layer are compared.
 """
 import os
+import plistlib
 import shutil
 import tempfile
 
@@ -13,6 +17,10 @@ NAMES = ["A", "B", "C", "D", "E", "F", "a.alt", "f_i"]
 CODES = [65, 66, 67, 97, 0xE000]
 IMAGES = ["i1.png", "i2.png"]
 VARIANTS = ["unread", "partial", "full", "memory"]
+DEFAULT = "fg"                      # name of the default layer of a case with several layers
+EXTRA_LAYERS = ["bg", "sk"]
+# names for pseudoUnicodeForGlyphName: suffixed / ligature names whose base is one of NAMES, and names it refuses
+PSEUDO_PROBES = NAMES + ["A.sc", "B_C.liga", "D.x_y", ".A", "_B", "Z.alt", "E_"]
 
 # outline kinds: 0 none; 2 closed line contour;
 # 1 single move point, 3 off-curve only contour: len(glyph) > 0 but no point ends a segment.  The loaded path of
@@ -26,6 +34,25 @@ def kind_flags(kind):
     return (kind != 0, kind == 2)
 
 
+def is_multi(case):
+    return bool(case.get("multi"))
+
+
+def default_name(case):
+    return DEFAULT if is_multi(case) else ""
+
+
+def unwrap(op):
+    """(layer name or None, inner op)"""
+    if op[0] == "on":
+        return op[1], op[2]
+    return None, op
+
+
+def inner_kind(op):
+    return unwrap(op)[1][0]
+
+
 # ---------------------------------------------------------------------------------------
 # generation
 # ---------------------------------------------------------------------------------------
@@ -34,10 +61,19 @@ BASES = ["A", "B", "C"]            # never carry components
 COMPOSITES = ["D", "E", "F", "a.alt", "f_i"]   # may reference BASES only: the component graph stays acyclic
 
 
-def gen_rec(rng, name, incoherent=False, uni_rate=0.6):
+def gen_unicodes(rng, lo, hi, dup_rate):
+    us = rng.sample(CODES, rng.randint(lo, hi))
+    if us and dup_rate and rng.random() < dup_rate:
+        # a list that repeats a code point (the setter keeps it as it is)
+        for _ in range(rng.randint(1, 2)):
+            us.insert(rng.randrange(len(us) + 1), rng.choice(us))
+    return us
+
+
+def gen_rec(rng, name, incoherent=False, uni_rate=0.6, dup_rate=0.0):
     us = []
     if rng.random() < uni_rate:
-        us = rng.sample(CODES, rng.randint(1, 2))
+        us = gen_unicodes(rng, 1, 2, dup_rate)
     comps = []
     if name in COMPOSITES and rng.random() < 0.5:
         comps = [rng.choice(BASES) for _ in range(rng.randint(1, 2))]
@@ -46,73 +82,223 @@ def gen_rec(rng, name, incoherent=False, uni_rate=0.6):
     return dict(unicodes=us, comps=comps, image=image, kind=rng.choice(kinds))
 
 
-def gen_ops(rng, disk_names, nops, uni_weight, incoherent):
-    """ops over NAMES, keeping renames inside the domain (target not present) and the component
-    graph acyclic is not needed here (no decomposition, no bounds)."""
-    present = set(disk_names)
+def gen_layer_ops(rng, present, nops, uni_weight, incoherent, opts, unis):
+    """ops on ONE layer over NAMES; `present` = the names the layer shows (updated); `unis` = name -> current list
+    (as far as the generator knows it; only used to build re-assignments that reorder or repeat)"""
     ops = []
-    touched = False
+    dup_rate = opts.get("dup_rate", 0.0)
     for _ in range(nops):
         r = rng.random()
         name = rng.choice(NAMES)
         if rng.random() < 0.03 * uni_weight:
-            ops.append(["reload", name, gen_rec(rng, name, incoherent)])
+            rec = gen_rec(rng, name, incoherent)
+            ops.append(["reload", name, rec])
+            if name in present:
+                unis[name] = list(rec["unicodes"])
             continue
-        if r < 0.10:
+        if opts.get("lookup_pre") and rng.random() < opts["lookup_pre"]:
+            q = rng.random()
+            if q < 0.4:
+                ops.append(["rev", rng.choice(CODES)])
+            elif q < 0.7:
+                ops.append(["fwd", rng.choice(NAMES)])
+            else:
+                ops.append(["pseudo", rng.choice(PSEUDO_PROBES)])
+            continue
+        if opts.get("save_pre") and rng.random() < opts["save_pre"]:
+            ops.append(["save"])
+            continue
+        if r < 0.09:
             ops.append(["get", name])
-        elif r < 0.22:
+        elif r < 0.20:
             ops.append(["new", name])
             present.add(name)
-        elif r < 0.32:
-            ops.append(["insert", name, gen_rec(rng, name, incoherent)])
+            unis[name] = []
+        elif r < 0.30:
+            rec = gen_rec(rng, name, incoherent, dup_rate=dup_rate)
+            ops.append(["insert", name, rec])
             present.add(name)
-        elif r < 0.47:
+            unis[name] = list(rec["unicodes"])
+        elif r < 0.43:
             ops.append(["delete", name])
             present.discard(name)
-        elif r < 0.60:
-            free = [n for n in (BASES if name in BASES else COMPOSITES) if n not in present]
-            if name in present and free:
+            unis.pop(name, None)
+        elif r < 0.56:
+            cls = BASES if name in BASES else COMPOSITES
+            free = [n for n in cls if n not in present]
+            taken = [n for n in cls if n in present and n != name]
+            if name in present and taken and rng.random() < opts.get("rename_onto_rate", 0.0):
+                # onto a name that is present: the glyph there is replaced
+                new = rng.choice(taken)
+            elif name in present and free:
                 new = rng.choice(free)
-                ops.append(["rename", name, new])
+            else:
+                new = name
+            ops.append(["rename", name, new])
+            if name in present and new != name:
                 present.discard(name)
                 present.add(new)
+                unis[new] = unis.pop(name, [])
+        elif r < 0.56 + 0.15 * uni_weight:
+            cur = list(unis.get(name, []))
+            if cur and rng.random() < opts.get("reassign_rate", 0.0):
+                # a re-assignment that only reorders, only adds a repetition, or only drops one
+                how = rng.choice(["reverse", "repeat", "dedup", "rotate"])
+                if how == "reverse":
+                    us = cur[::-1]
+                elif how == "repeat":
+                    us = cur + [rng.choice(cur)]
+                elif how == "dedup":
+                    us = sorted(set(cur), key=cur.index)
+                else:
+                    us = cur[1:] + cur[:1]
             else:
-                ops.append(["rename", name, name])
-        elif r < 0.60 + 0.15 * uni_weight:
-            us = rng.sample(CODES, rng.randint(0, 2))
-            ops.append(["setUnicodes", name, us])
+                us = gen_unicodes(rng, 0, 2, dup_rate)
+            q = rng.random()
+            if q < opts.get("setter_rate", 0.0):
+                v = rng.choice(CODES + [None])
+                ops.append(["setUnicode", name, v])
+                us = [] if v is None else [v]
+            elif q < opts.get("setter_rate", 0.0) + opts.get("via_rate", 0.0):
+                # read-modify-write on the list the getter hands out, or a scribble on it that is never assigned
+                if rng.random() < 0.7:
+                    ops.append(["setUnicodesVia", name, us])
+                else:
+                    ops.append(["scribble", name, us])
+                    us = cur
+            else:
+                ops.append(["setUnicodes", name, us])
+            if name in present:
+                unis[name] = list(us)
         elif r < 0.80:
             rec = gen_rec(rng, name, incoherent)
             ops.append(["edit", name, rec["comps"], rec["image"], rec["kind"]])
         elif r < 0.84:
             ops.append(["setWidth", name, rng.choice([100, 250, 640])])
         elif r < 0.87:
-            ops.append(["readOutline", name])
+            if rng.random() < opts.get("bounds_rate", 0.0):
+                ops.append(["bounds", name])
+            else:
+                ops.append(["readOutline", name])
         elif r < 0.91:
             ops.append(["save"])
         elif r < 0.94:
             # another program rewrites the glyph's file (new unicodes, components, image, outline) and the layer is told
-            # to reload it; where there is no file to rewrite (memory-only twin, glyph not saved yet) the same content is
-            # assigned in memory
-            ops.append(["reload", name, gen_rec(rng, name, incoherent)])
+            # to reload it - whether or not the glyph has been read; where there is no file to rewrite (memory-only twin,
+            # glyph not saved yet) the same content is assigned in memory
+            rec = gen_rec(rng, name, incoherent)
+            ops.append(["reload", name, rec])
+            if name in present:
+                unis[name] = list(rec["unicodes"])
+        elif rng.random() < opts.get("lookup_rate", 0.0):
+            q = rng.random()
+            if q < 0.4:
+                ops.append(["rev", rng.choice(CODES)])
+            elif q < 0.7:
+                ops.append(["fwd", rng.choice(NAMES)])
+            else:
+                ops.append(["pseudo", rng.choice(PSEUDO_PROBES)])
         else:
             ops.append(["touchUni"])
-            touched = True
-    if not touched and rng.random() < 0.8:
+    return ops
+
+
+READS_MAP = ("touchUni", "rev", "fwd", "pseudo")
+
+
+def gen_ops(rng, disk_names, nops, uni_weight, incoherent, opts=None, disk_unis=None):
+    """single layer (the default one), first access to the unicode data at a random position"""
+    opts = opts or {}
+    present = set(disk_names)
+    unis = dict(disk_unis or {})
+    ops = gen_layer_ops(rng, present, nops, uni_weight, incoherent, opts, unis)
+    if not any(o[0] in READS_MAP for o in ops) and rng.random() < 0.8:
         ops.insert(rng.randrange(len(ops) + 1), ["touchUni"])
     return ops
 
 
-def gen_group(rng, maxops, uni_weight=1.0, incoherent_rate=0.1):
+def cached_then_edited(rng, disk):
+    """a derived answer is asked for, something it depends on is edited, it is asked for again: the bounds of a
+    composite glyph before and after an edit of the outline of its base glyph"""
+    comps = [(n, rec) for n, rec in disk if rec["comps"]]
+    if not comps:
+        return []
+    names = set(n for n, _ in disk)
+    # rather a composite whose base glyph is in the font
+    comps = [(n, rec) for n, rec in comps if any(b in names for b in rec["comps"])] or comps
+    n, rec = rng.choice(comps)
+    base = rng.choice([b for b in rec["comps"] if b in names] or rec["comps"])
+    cur = dict((a, b) for a, b in disk).get(base)
+    kinds = [k for k in COHERENT_KINDS if cur is None or k != cur["kind"]]
+    newkind = rng.choice(kinds)
+    image = None if cur is None else cur["image"]
+    pre = [["get", base]] if rng.random() < 0.3 else []
+    return pre + [["bounds", n], ["edit", base, [], image, newkind], ["bounds", n]]
+
+
+def gen_group(rng, maxops, uni_weight=1.0, incoherent_rate=0.1, opts=None):
     """one content + op list, yielded in all four variants"""
+    opts = opts or {}
     incoherent = rng.random() < incoherent_rate
     disk_names = rng.sample(NAMES, rng.randint(0, 6))
     disk = [[n, gen_rec(rng, n, incoherent)] for n in disk_names]
-    ops = gen_ops(rng, disk_names, rng.randint(3, maxops), uni_weight, incoherent)
     pre = [n for n in disk_names if rng.random() < 0.5]
     rng.shuffle(pre)
+    multi = bool(opts.get("multi_rate")) and rng.random() < opts["multi_rate"]
+    if not multi:
+        ops = gen_ops(rng, disk_names, rng.randint(3, maxops), uni_weight, incoherent, opts,
+                      {n: list(r["unicodes"]) for n, r in disk})
+        if opts.get("scenario_rate") and rng.random() < opts["scenario_rate"]:
+            sc = cached_then_edited(rng, disk)
+            k = rng.randrange(len(ops) + 1)
+            ops[k:k] = sc
+        for v in VARIANTS:
+            yield dict(disk=disk, variant=v, preread=pre if v == "partial" else (sorted(disk_names) if v == "full" else []),
+                       ops=ops, incoherent=incoherent)
+        return
+    # several layers: each has its own glyphs (same names, other code points) and its own unicode data
+    extra = []
+    for ln in EXTRA_LAYERS[:rng.randint(1, 2)]:
+        names = rng.sample(NAMES, rng.randint(0, 4))
+        extra.append([ln, [[n, gen_rec(rng, n, incoherent)] for n in names]])
+    layers = {DEFAULT: (set(disk_names), {n: list(r["unicodes"]) for n, r in disk})}
+    for ln, gl in extra:
+        layers[ln] = (set(n for n, _ in gl), {n: list(r["unicodes"]) for n, r in gl})
+    default = DEFAULT
+    ops = []
+    fresh = [ln for ln in EXTRA_LAYERS if ln not in layers]
+    for _ in range(rng.randint(3, maxops)):
+        r = rng.random()
+        if r < 0.08 and len(layers) > 1:
+            default = rng.choice(sorted(layers))
+            ops.append(["setDefault", default])
+            continue
+        if r < 0.11 and fresh:
+            ln = fresh.pop(0)
+            layers[ln] = (set(), {})
+            ops.append(["newLayer", ln])
+            continue
+        if r < 0.17:
+            ops.append(["save"])
+            continue
+        ln = rng.choice(sorted(layers))
+        present, unis = layers[ln]
+        one = gen_layer_ops(rng, present, 1, uni_weight, incoherent, opts, unis)[0]
+        if one[0] == "save":
+            one = ["touchUni"]
+        if ln == default and rng.random() < 0.5:
+            ops.append(one)                       # through the Font API
+        else:
+            ops.append(["on", ln, one])
+    if not any(inner_kind(o) in READS_MAP for o in ops) and rng.random() < 0.8:
+        ln = rng.choice([DEFAULT] + [e[0] for e in extra])
+        ops.insert(0 if rng.random() < 0.3 else rng.randrange(len(ops) + 1), ["on", ln, ["touchUni"]])
+    pre_extra = {ln: [n for n, _ in gl if rng.random() < 0.5] for ln, gl in extra}
     for v in VARIANTS:
-        yield dict(disk=disk, variant=v, preread=pre if v == "partial" else (sorted(disk_names) if v == "full" else []),
+        yield dict(disk=disk, extra=extra, multi=True, variant=v,
+                   preread=pre if v == "partial" else (sorted(disk_names) if v == "full" else []),
+                   preread_extra={ln: (pre_extra[ln] if v == "partial" else (sorted(n for n, _ in gl) if v == "full" else []))
+                                  for ln, gl in extra},
                    ops=ops, incoherent=incoherent)
 
 
@@ -120,12 +306,17 @@ def gen_group(rng, maxops, uni_weight=1.0, incoherent_rate=0.1):
 # model side
 # ---------------------------------------------------------------------------------------
 
+def dedup(us):
+    us = list(us)
+    return sorted(set(us), key=us.index)
+
+
 def enc_rec(rec):
     ol, of = kind_flags(rec["kind"])
     return [list(rec["unicodes"]), list(rec["comps"]), opt(rec["image"]), ol, of]
 
 
-def enc_op(op):
+def enc_inner(op):
     k = op[0]
     if k in ("get", "new", "delete"):
         return [Atom(k), op[1]]
@@ -133,36 +324,71 @@ def enc_op(op):
         return [Atom("insert"), op[1], enc_rec(op[2])]
     if k == "rename":
         return [Atom("rename"), op[1], op[2]]
-    if k == "setUnicodes":
+    if k in ("setUnicodes", "setUnicodesVia"):
         return [Atom("setUnicodes"), op[1], list(op[2])]
+    if k == "setUnicode":
+        return [Atom("setUnicode"), op[1], opt(op[2])]
+    if k == "scribble":
+        return [Atom("get"), op[1]]
     if k == "edit":
         ol, of = kind_flags(op[4])
         return [Atom("edit"), op[1], list(op[2]), opt(op[3]), ol, of]
     if k in ("save", "touchUni"):
         return [Atom(k)]
     if k == "reload":
-        rec = op[2]
-        ol, of = kind_flags(rec["kind"])
-        return [Atom("seq"), [Atom("get"), op[1]], [Atom("setUnicodes"), op[1], list(rec["unicodes"])],
-                [Atom("edit"), op[1], list(rec["comps"]), opt(rec["image"]), ol, of]]
-    if k == "readOutline":
+        # what glifLib reads from a file never repeats a code point
+        rec = dict(op[2], unicodes=dedup(op[2]["unicodes"]))
+        return [Atom("reload"), op[1], enc_rec(rec)]
+    if k in ("readOutline", "bounds"):
         return [Atom("get"), op[1]]
     if k == "setWidth":
         return [Atom("touch"), op[1]]
+    if k in ("fwd", "pseudo"):
+        return [Atom(k), op[1]]
+    if k == "rev":
+        return [Atom("rev"), op[1]]
     raise ValueError(op)
+
+
+def enc_op(op):
+    k = op[0]
+    if k == "on":
+        return [Atom("on"), op[1], enc_inner(op[2])]
+    if k in ("setDefault", "newLayer"):
+        return [Atom(k), op[1]]
+    return enc_inner(op)
+
+
+def setup_ops(case):
+    """the operations that bring the font into the case's starting state (reads / the memory-only twin's inserts)"""
+    seq = []
+    if case["variant"] == "memory":
+        for n, rec in case["disk"]:
+            seq.append(["insert", n, rec])
+        for ln, gl in case.get("extra", []):
+            for n, rec in gl:
+                seq.append(["on", ln, ["insert", n, rec]])
+    else:
+        for n in case["preread"]:
+            seq.append(["get", n])
+        for ln, _ in case.get("extra", []):
+            for n in case.get("preread_extra", {}).get(ln, []):
+                seq.append(["on", ln, ["get", n]])
+    return seq
 
 
 def model_lines(case):
     lines = []
-    if case["variant"] == "memory":
-        lines.append([Atom("init"), []])
-        for n, rec in case["disk"]:
-            lines.append([Atom("insert"), n, enc_rec(rec)])
+    mem = case["variant"] == "memory"
+
+    def enc_disk(gl):
+        return [] if mem else [[n, enc_rec(rec)] for n, rec in gl]
+    if is_multi(case):
+        lines.append([Atom("initf"), DEFAULT, [[DEFAULT, enc_disk(case["disk"])]] +
+                      [[ln, enc_disk(gl)] for ln, gl in case.get("extra", [])]])
     else:
-        lines.append([Atom("init"), [[n, enc_rec(rec)] for n, rec in case["disk"]]])
-        for n in case["preread"]:
-            lines.append([Atom("get"), n])
-    for op in case["ops"]:
+        lines.append([Atom("init"), enc_disk(case["disk"])])
+    for op in setup_ops(case) + list(case["ops"]):
         lines.append(enc_op(op))
     return lines
 
@@ -198,33 +424,7 @@ class _G(object):
     pass
 
 
-def write_ufo(path, disk):
-    """written with ufoLib only (independent of defcon)"""
-    from fontTools.ufoLib import UFOWriter
-    w = UFOWriter(path)
-    gs = w.getGlyphSet()
-    for n, rec in disk:
-        g = _G()
-        g.width = 500
-        g.unicodes = list(rec["unicodes"])
-        if rec["image"] is not None:
-            g.image = image_dict(rec["image"])
-            del g.image["color"]
-
-        def draw(pen, rec=rec):
-            draw_kind(pen, rec["kind"])
-            for b in rec["comps"]:
-                pen.addComponent(b, (1, 0, 0, 1, 0, 0))
-        gs.writeGlyph(n, g, draw)
-    gs.writeContents()
-    w.writeLayerContents()
-    w.close()
-
-
-def write_one_glif(glyphs_dir, name, rec):
-    """another program rewrites the file of a glyph that the glyph set lists (ufoLib only; contents.plist untouched)"""
-    from fontTools.ufoLib.glifLib import GlyphSet
-    gs = GlyphSet(glyphs_dir)
+def _write_glyph(gs, n, rec):
     g = _G()
     g.width = 500
     g.unicodes = list(rec["unicodes"])
@@ -232,12 +432,56 @@ def write_one_glif(glyphs_dir, name, rec):
         g.image = image_dict(rec["image"])
         del g.image["color"]
 
-    def draw(pen):
+    def draw(pen, rec=rec):
         draw_kind(pen, rec["kind"])
         for b in rec["comps"]:
             pen.addComponent(b, (1, 0, 0, 1, 0, 0))
+    gs.writeGlyph(n, g, draw)
+
+
+def write_ufo(path, disk, extra=None, default=None):
+    """written with ufoLib only (independent of defcon)"""
+    from fontTools.ufoLib import UFOWriter
+    w = UFOWriter(path)
+    if extra is None:
+        gs = w.getGlyphSet()
+        for n, rec in disk:
+            _write_glyph(gs, n, rec)
+        gs.writeContents()
+        w.writeLayerContents()
+    else:
+        order = [default]
+        gs = w.getGlyphSet(layerName=default, defaultLayer=True)
+        for n, rec in disk:
+            _write_glyph(gs, n, rec)
+        gs.writeContents()
+        for ln, gl in extra:
+            gs = w.getGlyphSet(layerName=ln, defaultLayer=False)
+            for n, rec in gl:
+                _write_glyph(gs, n, rec)
+            gs.writeContents()
+            order.append(ln)
+        w.writeLayerContents(order)
+    w.close()
+
+
+def layer_dir(ufo, layer_name):
+    """the directory of a layer, from layercontents.plist as it stands (a save after a change of default layer moves them)"""
+    p = os.path.join(ufo, "layercontents.plist")
+    if os.path.exists(p):
+        with open(p, "rb") as f:
+            for ln, d in plistlib.load(f):
+                if ln == layer_name:
+                    return os.path.join(ufo, d)
+    return os.path.join(ufo, "glyphs")
+
+
+def write_one_glif(glyphs_dir, name, rec):
+    """another program rewrites the file of a glyph that the glyph set lists (ufoLib only; contents.plist untouched)"""
+    from fontTools.ufoLib.glifLib import GlyphSet
+    gs = GlyphSet(glyphs_dir)
     assert name in gs.contents
-    gs.writeGlyph(name, g, draw)
+    _write_glyph(gs, name, rec)
     gs.close() if hasattr(gs, "close") else None
 
 
@@ -254,6 +498,24 @@ def apply_rec(glyph, rec, with_unicodes=True):
     draw_kind(glyph.getPointPen(), rec["kind"])
 
 
+def _bounds_pair(g):
+    def t(b):
+        return None if b is None else list(b)
+    return [t(g.bounds), t(g.controlPointBounds)]
+
+
+def twin_bounds(content, name):
+    """the bounds of glyph `name` in a font that holds `content` purely in memory (built through the API)"""
+    from defcon import Font
+    f = Font()
+    keep = []
+    for n in sorted(content, key=lambda x: (x not in BASES, x)):
+        g = f.newGlyph(n)
+        apply_rec(g, content[n])
+        keep.append(g)
+    return _bounds_pair(f[name])
+
+
 class Impl(object):
     def __init__(self, case, tmpd):
         from defcon import Font
@@ -261,18 +523,39 @@ class Impl(object):
         self.keep = []          # keep every object alive
         self.unilists = {}
         self.reloaded = 0
-        self.touched = False
+        self.reloaded_unread = 0
+        self.touched = set()    # layers whose unicode data have been asked for
         self.case = case
+        self.multi = is_multi(case)
+        self.last_bounds = None
+        self.last_lookup = None
         if case["variant"] == "memory":
             self.font = Font()
+            if self.multi:
+                self.font.layers.defaultLayer.name = DEFAULT
+                for ln, _ in case.get("extra", []):
+                    self.keep.append(self.font.newLayer(ln))
         else:
             path = os.path.join(tmpd, "f.ufo")
-            write_ufo(path, case["disk"])
+            if self.multi:
+                write_ufo(path, case["disk"], case.get("extra", []), DEFAULT)
+            else:
+                write_ufo(path, case["disk"])
             self.font = Font(path)
-        self.layer = self.font.layers.defaultLayer
+        for l in self.font.layers:
+            self.keep.append(l)
 
-    def snapshot(self, status):
-        layer = self.layer
+    def layer_of(self, lname):
+        if lname is None:
+            return self.font.layers.defaultLayer
+        return self.font.layers[lname]
+
+    def key_of(self, layer):
+        return layer.name if self.multi else ""
+
+    def snapshot(self, status, layer=None, via_font=False):
+        if layer is None:
+            layer = self.font.layers.defaultLayer
         keys = [Atom("set")] + sorted(layer.keys())
         comps = set()
         for base, refs in layer.componentReferences.items():
@@ -284,8 +567,9 @@ class Impl(object):
                 images.add((fn, r))
         outl = [Atom("set")] + sorted(set(layer.glyphsWithOutlines))
         self.last_outlines = outl[1:]
-        if self.touched:
-            ud = layer.unicodeData
+        if self.key_of(layer) in self.touched:
+            # an operation that went through the Font API is followed by a look at font.unicodeData
+            ud = self.font.unicodeData if via_font else layer.unicodeData
             uni = [Atom("set")] + [[c, [Atom("set")] + list(names)] for c, names in ud.items()]
         else:
             uni = Atom("none")
@@ -299,150 +583,266 @@ class Impl(object):
                 [Atom("uni"), uni]]
 
     def do(self, op):
-        layer = self.layer
-        k = op[0]
+        lname, inner = unwrap(op)
+        k = inner[0]
+        font = self.font
+        via_font = lname is None
+        self.last_lookup = None
+        self.last_bounds = None
+        if k == "setDefault":
+            layer = font.layers[inner[1]]
+            font.layers.defaultLayer = layer
+            assert font.layers.defaultLayer is layer
+            # what font.unicodeData shows from now on is the new default layer's map
+            return self.snapshot(Atom("ok"), layer, via_font=True)
+        if k == "newLayer":
+            layer = font.newLayer(inner[1])
+            self.keep.append(layer)
+            return self.snapshot(Atom("ok"), layer)
+        layer = self.layer_of(lname)
+        status = Atom("ok")
         try:
             if k == "get":
-                self.keep.append(layer[op[1]])
+                self.keep.append(font[inner[1]] if via_font else layer[inner[1]])
             elif k == "new":
-                self.keep.append(layer.newGlyph(op[1]))
+                if inner[1] in layer._glyphs:
+                    self.keep.append(layer._glyphs[inner[1]])
+                self.keep.append(font.newGlyph(inner[1]) if via_font else layer.newGlyph(inner[1]))
             elif k == "insert":
                 from defcon import Glyph
                 src = Glyph()
                 src.name = "src"
-                apply_rec(src, op[2])
+                apply_rec(src, inner[2])
                 self.keep.append(src)
-                self.keep.append(layer.insertGlyph(src, name=op[1]))
+                if inner[1] in layer._glyphs:
+                    self.keep.append(layer._glyphs[inner[1]])
+                if via_font:
+                    self.keep.append(font.insertGlyph(src, name=inner[1]))
+                else:
+                    self.keep.append(layer.insertGlyph(src, name=inner[1]))
             elif k == "delete":
-                if op[1] in layer._glyphs:
-                    self.keep.append(layer._glyphs[op[1]])
-                del layer[op[1]]
+                if inner[1] in layer._glyphs:
+                    self.keep.append(layer._glyphs[inner[1]])
+                if via_font:
+                    del font[inner[1]]
+                else:
+                    del layer[inner[1]]
             elif k == "rename":
-                g = layer[op[1]]
+                g = layer[inner[1]]
                 self.keep.append(g)
-                g.name = op[2]
+                if inner[2] in layer._glyphs:
+                    self.keep.append(layer._glyphs[inner[2]])
+                g.name = inner[2]
             elif k == "setUnicodes":
-                g = layer[op[1]]
+                g = layer[inner[1]]
                 self.keep.append(g)
                 # the caller keeps ONE list object per glyph object, edits it in place and assigns it again: the glyph
                 # must have taken a copy, or the comparison with the "old" value sees no change
                 lst = self.unilists.setdefault(id(g), [])
-                lst[:] = list(op[2])
+                lst[:] = list(inner[2])
                 g.unicodes = lst
-            elif k == "edit":
-                g = layer[op[1]]
+            elif k == "setUnicodesVia":
+                # read - modify in place - write: the list the getter hands out must be the caller's own
+                g = layer[inner[1]]
                 self.keep.append(g)
-                apply_rec(g, dict(comps=op[2], image=op[3], kind=op[4]), with_unicodes=False)
+                lst = g.unicodes
+                lst[:] = list(inner[2])
+                g.unicodes = lst
+            elif k == "scribble":
+                # the caller scribbles on the list the getter handed out and never assigns it: nothing may change
+                g = layer[inner[1]]
+                self.keep.append(g)
+                lst = g.unicodes
+                lst[:] = list(inner[2])
+                self.keep.append(lst)
+            elif k == "setUnicode":
+                g = layer[inner[1]]
+                self.keep.append(g)
+                g.unicode = inner[2]
+            elif k == "edit":
+                g = layer[inner[1]]
+                self.keep.append(g)
+                apply_rec(g, dict(comps=inner[2], image=inner[3], kind=inner[4]), with_unicodes=False)
                 g.dirty = True
             elif k == "setWidth":
-                g = layer[op[1]]
+                g = layer[inner[1]]
                 self.keep.append(g)
-                g.width = op[2]
+                g.width = inner[2]
             elif k == "reload":
-                g = layer[op[1]]
-                self.keep.append(g)
-                rec = op[2]
+                name, rec = inner[1], inner[2]
+                if name not in layer:
+                    raise KeyError(name)
                 gs = layer._glyphSet
-                if self.font.path is not None and gs is not None and op[1] in gs.contents and os.path.isdir(self.font.path):
-                    write_one_glif(os.path.join(self.font.path, "glyphs"), op[1], rec)
-                    layer.reloadGlyphs([op[1]])
+                if font.path is not None and gs is not None and name in gs.contents and os.path.isdir(font.path):
+                    # the glyph is NOT read first: reloadGlyphs has to cope with glyphs that have and have not been read
+                    if name in layer._glyphs:
+                        self.keep.append(layer._glyphs[name])
+                    else:
+                        self.reloaded_unread += 1
+                    write_one_glif(layer_dir(font.path, layer.name), name, rec)
+                    layer.reloadGlyphs([name])
+                    self.keep.append(layer[name])
                     self.reloaded += 1
                 else:
-                    g.unicodes = list(rec["unicodes"])
+                    g = layer[name]
+                    self.keep.append(g)
+                    g.unicodes = dedup(rec["unicodes"])
                     apply_rec(g, rec, with_unicodes=False)
                     g.width = 500
                     g.dirty = True
             elif k == "readOutline":
-                g = layer[op[1]]
+                g = layer[inner[1]]
                 self.keep.append(g)
                 len(g)
                 g.bounds
+            elif k == "bounds":
+                g = layer[inner[1]]
+                self.keep.append(g)
+                self.last_bounds = _bounds_pair(g)
             elif k == "save":
-                if self.font.path is None:
-                    self.font.save(os.path.join(self.tmpd, "m.ufo"))
+                if font.path is None:
+                    font.save(os.path.join(self.tmpd, "m.ufo"))
                 else:
-                    self.font.save()
+                    font.save()
             elif k == "touchUni":
-                self.touched = True
-                layer.unicodeData
+                self.touched.add(self.key_of(layer))
+                ud = font.unicodeData if via_font else layer.unicodeData
+                self.keep.append(ud)
+            elif k in ("fwd", "pseudo"):
+                self.touched.add(self.key_of(layer))
+                ud = font.unicodeData if via_font else layer.unicodeData
+                v = ud.unicodeForGlyphName(inner[1]) if k == "fwd" else ud.pseudoUnicodeForGlyphName(inner[1])
+                self.last_lookup = v
+                status = [Atom("ok"), opt(v)]
+            elif k == "rev":
+                self.touched.add(self.key_of(layer))
+                ud = font.unicodeData if via_font else layer.unicodeData
+                c = inner[1]
+                res = ud.glyphNameForUnicode(c)
+                lst = list(ud.get(c) or [])
+                has = c in ud
+                self.last_lookup = (res, has)
+                ans = Atom("none") if (res is None and not lst) else (Atom("member") if res in lst else Atom("bad"))
+                status = [Atom("ok"), bool(has), ans]
             else:
                 raise ValueError(op)
-            status = Atom("ok")
         except KeyError:
             status = [Atom("err"), Atom("KeyError")]
-        return self.snapshot(status)
+        return self.snapshot(status, layer, via_font=via_font)
 
 
 # ---------------------------------------------------------------------------------------
 # shadow specification (abstract content) and oracle
 # ---------------------------------------------------------------------------------------
 
+def spec_base(n):
+    """the name pseudoUnicodeForGlyphName falls back to (its documented rule), None where it gives up"""
+    if n.startswith(".") or n.startswith("_"):
+        return None
+    if "." not in n and "_" not in n:
+        return None
+    return n.split(".")[0].split("_")[0]
+
+
 class Shadow(object):
-    def __init__(self, disk):
-        self.g = {n: dict(rec, width=500) for n, rec in disk}
-        self.touched = False
+    def __init__(self, case):
+        mem = case["variant"] == "memory"
+        self.multi = is_multi(case)
+        self.default = default_name(case)
+        self.layers = {self.default: {} if mem else {n: dict(rec, width=500) for n, rec in case["disk"]}}
+        for ln, gl in case.get("extra", []):
+            self.layers[ln] = {} if mem else {n: dict(rec, width=500) for n, rec in gl}
+        self.touched = set()
+        self.cur = self.default
+
+    @property
+    def g(self):
+        return self.layers[self.default]
 
     def do(self, op):
-        k = op[0]
-        g = self.g
+        lname, inner = unwrap(op)
+        k = inner[0]
+        if k == "setDefault":
+            self.default = inner[1]
+            self.cur = inner[1]
+            return True
+        if k == "newLayer":
+            self.layers[inner[1]] = {}
+            self.cur = inner[1]
+            return True
+        ln = self.default if lname is None else lname
+        self.cur = ln
+        g = self.layers[ln]
         if k == "get":
-            return op[1] in g
+            return inner[1] in g
         if k == "new":
-            g[op[1]] = dict(unicodes=[], comps=[], image=None, kind=0, width=0)
+            g[inner[1]] = dict(unicodes=[], comps=[], image=None, kind=0, width=0)
         elif k == "insert":
-            g[op[1]] = dict(op[2], width=0)
+            g[inner[1]] = dict(inner[2], width=0)
         elif k == "delete":
-            if op[1] not in g:
+            if inner[1] not in g:
                 return False
-            del g[op[1]]
+            del g[inner[1]]
         elif k == "rename":
-            if op[1] not in g:
+            if inner[1] not in g:
                 return False
-            if op[1] != op[2]:
-                g[op[2]] = g.pop(op[1])
-        elif k == "setUnicodes":
-            if op[1] not in g:
+            if inner[1] != inner[2]:
+                g[inner[2]] = g.pop(inner[1])      # a glyph stored under the new name is replaced
+        elif k in ("setUnicodes", "setUnicodesVia"):
+            if inner[1] not in g:
                 return False
-            g[op[1]] = dict(g[op[1]], unicodes=list(op[2]))
+            g[inner[1]] = dict(g[inner[1]], unicodes=list(inner[2]))
+        elif k == "setUnicode":
+            if inner[1] not in g:
+                return False
+            g[inner[1]] = dict(g[inner[1]], unicodes=[] if inner[2] is None else [inner[2]])
+        elif k == "scribble":
+            return inner[1] in g
         elif k == "edit":
-            if op[1] not in g:
+            if inner[1] not in g:
                 return False
-            g[op[1]] = dict(g[op[1]], comps=list(op[2]), image=op[3], kind=op[4])
+            g[inner[1]] = dict(g[inner[1]], comps=list(inner[2]), image=inner[3], kind=inner[4])
         elif k == "setWidth":
-            if op[1] not in g:
+            if inner[1] not in g:
                 return False
-            g[op[1]] = dict(g[op[1]], width=op[2])
+            g[inner[1]] = dict(g[inner[1]], width=inner[2])
         elif k == "reload":
-            if op[1] not in g:
+            if inner[1] not in g:
                 return False
-            g[op[1]] = dict(op[2], width=500)
-        elif k == "readOutline":
-            return op[1] in g
-        elif k == "touchUni":
-            self.touched = True
+            g[inner[1]] = dict(inner[2], unicodes=dedup(inner[2]["unicodes"]), width=500)
+        elif k in ("readOutline", "bounds"):
+            return inner[1] in g
+        elif k in READS_MAP:
+            self.touched.add(ln)
         return True
 
     def expected(self):
-        g = self.g
+        g = self.layers[self.cur]
         keys = sorted(g)
         comps = sorted({(b, n) for n, r in g.items() for b in r["comps"]})
         images = sorted({(r["image"], n) for n, r in g.items() if r["image"] is not None})
         outl = sorted(n for n, r in g.items() if r["kind"] == 2)
         uni = None
-        if self.touched:
+        if self.cur in self.touched:
             uni = {}
             for n, r in g.items():
                 for c in r["unicodes"]:
                     uni.setdefault(c, set()).add(n)
         return dict(keys=keys, comps=comps, images=images, outlines=outl, uni=uni)
 
+    def first_code(self, layer_name, n):
+        r = self.layers[layer_name].get(n)
+        if r is None or not r["unicodes"]:
+            return None
+        return r["unicodes"][0]
 
-def read_back(path):
-    """{name: (unicodes, comps, image, kind, width)} of the default layer, read with ufoLib only"""
+
+def read_back(path, layer_name=None):
+    """{name: (unicodes, comps, image, kind, width)} of a layer (the default one if not named), read with ufoLib only"""
     from fontTools.ufoLib import UFOReader
     res = {}
     with UFOReader(path, validate=False) as r:
-        gs = r.getGlyphSet()
+        gs = r.getGlyphSet(layer_name) if layer_name else r.getGlyphSet()
         for n in gs.keys():
             o = _G()
             o.width = 0
@@ -496,60 +896,98 @@ def _observed(snap, impl):
     return d
 
 
+MUTATING = ("delete", "rename", "new", "insert", "setUnicodes", "setUnicodesVia", "setUnicode", "edit", "setWidth", "reload")
+
+
 def run_case(case, prop, judged):
-    """judged: the query names whose mismatch is a violation of `prop` (C07: all; C09: uni)"""
+    """judged: the query names whose mismatch is a violation of `prop` (C07: all; C09: uni and the look-ups)"""
     tmpd = tempfile.mkdtemp(prefix="vlayer_")
     try:
         impl = Impl(case, tmpd)
-        shadow = Shadow(case["disk"] if case["variant"] != "memory" else [])
+        shadow = Shadow(case)
         outs = []
         viol = []
         stats = {"variant." + case["variant"]: 1}
-        seq = []
+        if is_multi(case):
+            stats["cases_with_several_layers"] = 1
         if case.get("incoherent"):
             stats["cases_with_segmentless_contours"] = 1
-        if case["variant"] == "memory":
-            seq.append(None)
-            for n, rec in case["disk"]:
-                seq.append(["insert", n, rec])
-        else:
-            seq.append(None)
-            for n in case["preread"]:
-                seq.append(["get", n])
-        seq.extend(case["ops"])
+        seq = [None] + setup_ops(case) + list(case["ops"])
         n_setup = len(seq) - len(case["ops"])
         uni_checked = 0
         for i, op in enumerate(seq):
             if op is None:
                 snap = impl.snapshot(Atom("ok"))
                 ok_expected = True
+                k = "open"
             else:
                 snap = impl.do(op)
                 ok_expected = shadow.do(op)
-                stats["op." + op[0]] = stats.get("op." + op[0], 0) + 1
+                k = inner_kind(op)
+                stats["op." + k] = stats.get("op." + k, 0) + 1
+                if op[0] == "on":
+                    stats["ops_on_named_layer"] = stats.get("ops_on_named_layer", 0) + 1
+                    if op[1] != shadow.default:
+                        stats["ops_on_non_default_layer"] = stats.get("ops_on_non_default_layer", 0) + 1
             outs.append(snap)
             if viol:
                 continue
             exp = shadow.expected()
             obs = _observed(snap, impl)
-            status_ok = snap[0] == "ok"
+            status_ok = snap[0] == "ok" or (isinstance(snap[0], list) and snap[0][0] == "ok")
             if status_ok != bool(ok_expected):
-                viol.append(dict(clause="%s/op-outcome" % prop, signature="%s/op-outcome/%s" % (prop, op[0]),
+                viol.append(dict(clause="%s/op-outcome" % prop, signature="%s/op-outcome/%s" % (prop, k),
                                  step=i - n_setup, op=op, expected_ok=bool(ok_expected), observed=str(snap[0])))
                 continue
             if not status_ok:
                 stats["err.KeyError"] = stats.get("err.KeyError", 0) + 1
-            if op is not None and op[0] == "save" and "saved" in judged and impl.font.path is not None:
-                got = read_back(impl.font.path)
-                want = {n: (list(r["unicodes"]), list(r["comps"]), r["image"], r["kind"], r.get("width", 500))
-                        for n, r in shadow.g.items()}
-                if got != want:
-                    bad = sorted(n for n in set(got) | set(want) if got.get(n) != want.get(n))
-                    n0 = bad[0]
-                    what = "missing" if n0 not in got else ("leftover" if n0 not in want else "content")
-                    viol.append(dict(clause="%s/saved-differs" % prop, signature="%s/saved-differs/%s" % (prop, what),
-                                     step=i - n_setup, op=op, glyph=n0, expected=want.get(n0), observed=got.get(n0),
-                                     variant=case["variant"]))
+            if k == "save" and "saved" in judged and impl.font.path is not None:
+                for ln, content in shadow.layers.items():
+                    got = read_back(impl.font.path, ln if shadow.multi else None)
+                    want = {n: (dedup(r["unicodes"]), list(r["comps"]), r["image"], r["kind"], r.get("width", 500))
+                            for n, r in content.items()}
+                    if got != want:
+                        bad = sorted(n for n in set(got) | set(want) if got.get(n) != want.get(n))
+                        n0 = bad[0]
+                        what = "missing" if n0 not in got else ("leftover" if n0 not in want else "content")
+                        viol.append(dict(clause="%s/saved-differs" % prop, signature="%s/saved-differs/%s" % (prop, what),
+                                         step=i - n_setup, op=op, glyph=n0, expected=want.get(n0), observed=got.get(n0),
+                                         variant=case["variant"], layer=ln))
+                        break
+                if viol:
+                    continue
+            if k == "bounds" and "bounds" in judged and status_ok:
+                # the reference of the property: a font holding the same content purely in memory
+                want = twin_bounds(shadow.layers[shadow.cur], unwrap(op)[1][1])
+                stats["bounds_checked"] = stats.get("bounds_checked", 0) + 1
+                if impl.last_bounds != want:
+                    prev = inner_kind(seq[i - 1]) if i > 0 and seq[i - 1] is not None else "open"
+                    viol.append(dict(clause="%s/query-differs/bounds" % prop,
+                                     signature="%s/query-differs/bounds/after-%s" % (prop, prev), step=i - n_setup, op=op,
+                                     expected=want, observed=impl.last_bounds, variant=case["variant"]))
+                    continue
+            if "uni" in judged and status_ok and k in ("fwd", "pseudo", "rev"):
+                arg = unwrap(op)[1][1]
+                bad = None
+                stats["lookups_checked"] = stats.get("lookups_checked", 0) + 1
+                if k == "rev":
+                    res, has = impl.last_lookup
+                    carriers = sorted(n for n, r in shadow.layers[shadow.cur].items() if arg in r["unicodes"])
+                    if (res is None) != (not carriers) or (res is not None and res not in carriers):
+                        bad = dict(what="glyphNameForUnicode", expected_one_of=carriers, observed=res)
+                    elif bool(has) != bool(carriers):
+                        bad = dict(what="code-in-unicodeData", expected=bool(carriers), observed=bool(has))
+                elif shadow.cur == shadow.default:
+                    # the data of the layer the font looks glyphs up in: the glyph's own first code point
+                    want = shadow.first_code(shadow.cur, arg)
+                    if k == "pseudo" and want is None:
+                        b = spec_base(arg)
+                        want = None if b is None else shadow.first_code(shadow.cur, b)
+                    if impl.last_lookup != want:
+                        bad = dict(what=k, expected=want, observed=impl.last_lookup)
+                if bad:
+                    viol.append(dict(clause="%s/lookup-%s" % (prop, k), signature="%s/lookup-%s/%s" % (prop, k, bad["what"]),
+                                     step=i - n_setup, op=op, variant=case["variant"], **bad))
                     continue
             for q in ("keys", "comps", "images", "outlines", "uni"):
                 if q not in judged:
@@ -560,23 +998,32 @@ def run_case(case, prop, judged):
                     uni_checked += 1
                     e = {c: s for c, s in exp["uni"].items() if s}
                     o = obs["uni"] or {}
-                    dup = [c for c, l in (obs.get("uni_lists") or {}).items() if len(l) != len(set(l))]
-                    if e != o or dup:
+                    content = shadow.layers[shadow.cur]
+                    lists = obs.get("uni_lists") or {}
+                    # a name is listed under a code point at most as often as the glyph's own list repeats it
+                    dup = sorted((c, n) for c, l in lists.items() for n in set(l)
+                                 if n in content and l.count(n) > max(1, content[n]["unicodes"].count(c)))
+                    empty = sorted(c for c, l in lists.items() if not l)
+                    if e != {c: s for c, s in o.items() if s} or dup or empty:
                         stale = sorted((c, n) for c, s in o.items() for n in s if n not in e.get(c, set()))
                         missing = sorted((c, n) for c, s in e.items() for n in s if n not in o.get(c, set()))
-                        kind = "stale" if stale else ("missing" if missing else "duplicate-or-empty-entry")
+                        kind = "stale" if stale else ("missing" if missing else ("empty-entry" if empty else "duplicate-entry"))
                         viol.append(dict(clause="%s/unicode-map-%s" % (prop, kind),
-                                         signature="%s/unicode-map-%s/after-%s" % (prop, kind, op[0] if op else "open"),
-                                         step=i - n_setup, op=op, stale=stale, missing=missing, variant=case["variant"]))
+                                         signature="%s/unicode-map-%s/after-%s" % (prop, kind, k),
+                                         step=i - n_setup, op=op, stale=stale, missing=missing, duplicate=dup, empty=empty,
+                                         variant=case["variant"], layer=shadow.cur))
                         break
                 elif exp[q] != obs[q]:
-                    sig = "%s/query-differs/%s/after-%s" % (prop, q, op[0] if op else "open")
+                    sig = "%s/query-differs/%s/after-%s" % (prop, q, k)
                     viol.append(dict(clause="%s/query-differs/%s" % (prop, q), signature=sig, step=i - n_setup, op=op,
                                      expected=exp[q], observed=obs[q], variant=case["variant"]))
                     break
         stats["uni_checked_steps"] = uni_checked
         stats["len"] = len(case["ops"])
-        nontrivial = any(o[0] in ("delete", "rename", "new", "insert", "setUnicodes", "edit", "setWidth", "reload") for o in case["ops"]) and len(case["disk"]) > 0
+        stats["reloads_from_file"] = impl.reloaded
+        stats["reloads_of_unread_glyphs"] = impl.reloaded_unread
+        nontrivial = any(inner_kind(o) in MUTATING for o in case["ops"]) and \
+            (len(case["disk"]) > 0 or any(gl for _, gl in case.get("extra", [])))
         return dict(out=outs, viol=viol, info=dict(nontrivial=nontrivial, stats=stats))
     finally:
         shutil.rmtree(tmpd, ignore_errors=True)
@@ -587,12 +1034,22 @@ def neighbourhood(case, step, rng):
     # step indexes the output lines; translate to op index conservatively
     k = max(0, min(len(ops), step))
     prefix = ops[:k + 1]
+    layers = [None] + ([DEFAULT] + [ln for ln, _ in case.get("extra", [])] if is_multi(case) else [])
+
+    def on(ln, op):
+        return op if ln is None else ["on", ln, op]
     for v in VARIANTS:
-        c2 = dict(case, variant=v, preread=[] if v in ("unread", "memory") else sorted(n for n, _ in case["disk"]))
+        pre = [] if v in ("unread", "memory") else sorted(n for n, _ in case["disk"])
+        pre_x = {ln: ([] if v in ("unread", "memory") else sorted(n for n, _ in gl)) for ln, gl in case.get("extra", [])}
+        c2 = dict(case, variant=v, preread=pre, preread_extra=pre_x)
         yield dict(c2, ops=prefix)
-        yield dict(c2, ops=prefix + [["touchUni"]])
-        yield dict(c2, ops=[["touchUni"]] + prefix)
-        yield dict(c2, ops=prefix + [["save"], ["touchUni"]])
-        for n in NAMES[:6]:
-            yield dict(c2, ops=prefix + [["delete", n], ["touchUni"]])
-            yield dict(c2, ops=prefix + [["new", n], ["touchUni"]])
+        for ln in layers:
+            yield dict(c2, ops=prefix + [on(ln, ["touchUni"])])
+            yield dict(c2, ops=[on(ln, ["touchUni"])] + prefix)
+            yield dict(c2, ops=prefix + [["save"], on(ln, ["touchUni"])])
+            for c in CODES[:3]:
+                yield dict(c2, ops=[on(ln, ["touchUni"])] + prefix + [on(ln, ["rev", c])])
+            for n in NAMES[:6]:
+                yield dict(c2, ops=prefix + [on(ln, ["delete", n]), on(ln, ["touchUni"])])
+                yield dict(c2, ops=prefix + [on(ln, ["new", n]), on(ln, ["touchUni"])])
+                yield dict(c2, ops=[on(ln, ["touchUni"])] + prefix + [on(ln, ["fwd", n])])
